@@ -140,7 +140,7 @@ def check(run, record_expected=False):
     from vf.pyvc.verify import preimport_meta
 
     preimport_meta()
-    deductive.add_evaluated(run, ded, sync_ded.main_guards(), "doctrans.__main__:main")
+    deductive.add_evaluated(run, ded, sync_ded.main_guards() + sync_ded.file_count_items(), "doctrans.__main__:main")
     deductive.add_evaluated(run, ded, sync_ded.atomicity_items(), "doctrans.emit:file")
     n = 0
     samples = []
